@@ -299,9 +299,11 @@ func (i *Interpreter) Define(clauseText string) error {
 	if err != nil {
 		return fmt.Errorf("parsing failed: %v", err)
 	}
-	i.resetInteractiveDefs(buffer)
+	prevBuffer := i.buffer
+	prev := i.resetInteractiveDefs(buffer)
 	programInfo, err := analysis.AnalyzeOneUnit(unit, i.knownPredicates)
 	if err != nil {
+		i.restoreInteractiveDefs(prev, prevBuffer)
 		return fmt.Errorf("analysis failed: %v", err)
 	}
 	i.pushSourceFragment(interactivePath, []parse.SourceUnit{unit}, programInfo)
@@ -309,6 +311,8 @@ func (i *Interpreter) Define(clauseText string) error {
 	// let the user control when to evaluate rules.
 	err = i.evalProgram(programInfo)
 	if err != nil {
+		i.popSourceFragment()
+		i.restoreInteractiveDefs(prev, prevBuffer)
 		return fmt.Errorf("evaluation failed: %v", err)
 	}
 	var preds []ast.PredicateSym
@@ -488,9 +492,25 @@ func (i *Interpreter) hasInteractiveDefs() bool {
 	return l > 0 && i.src[l-1] == interactivePath
 }
 
-func (i *Interpreter) resetInteractiveDefs(buffer string) {
+// resetInteractiveDefs pops the interactive fragment, if there is one, and
+// returns it.
+func (i *Interpreter) resetInteractiveDefs(buffer string) *sourceFragment {
+	var popped *sourceFragment
 	if i.hasInteractiveDefs() {
-		i.popSourceFragment()
+		popped = i.popSourceFragment()
 	}
 	i.buffer = buffer
+	return popped
+}
+
+// restoreInteractiveDefs puts back the interactive fragment that was popped
+// to make room for a definition that then got rejected.
+func (i *Interpreter) restoreInteractiveDefs(prev *sourceFragment, buffer string) {
+	i.buffer = buffer
+	if prev == nil {
+		return
+	}
+	i.pushSourceFragment(interactivePath, prev.units, prev.program)
+	// This evaluation succeeded before, on the same state.
+	_ = i.evalProgram(prev.program)
 }
